@@ -7,6 +7,7 @@ import ast
 from ..guards import Lit, Normaliser, facts_at
 from ..index import mangle, walk_no_nested
 from ..report import Result
+from ..inline import with_helpers
 from ..rules import rd_atomic, re_guards
 from ..rules.rc_owner import component_info
 from ..source import AnalysisError, src
@@ -79,7 +80,7 @@ def check(ctx) -> Result:
                 continue
             acc = None
             for gname, g in k.getters.items():
-                txt = src(g.node)
+                txt = src(with_helpers(ctx, g, only_private=False).node)
                 if f"isinstance(self.{fname}, Parameter)" in txt and f"self.{fname}.get()" in txt:
                     acc = g
             inst = f"{k.name}.{fname}"
@@ -132,7 +133,7 @@ def check(ctx) -> Result:
     # check_loss (used by Circuit.bs/ps/loss): accepted set of the resolved value is [0,1]
     cl = ctx.func(UTILS, "check_loss")
     re_guards.range_validator(ctx, res, cl, "loss", 0, 1, norm=Normaliser(lambda e: repr(e.value) if isinstance(e, ast.Constant) else None))
-    resolves = any(isinstance(n, ast.Assign) and src(n.value) == "loss.get()" for n in walk_no_nested(cl.node))
+    resolves = any(isinstance(n, ast.Call) and src(n.func) == "loss.get" for n in walk_no_nested(cl.node)) and any(isinstance(n, ast.Call) and src(n.func) == "isinstance" and [src(a_) for a_ in n.args] == ["loss", "Parameter"] for n in walk_no_nested(cl.node))
     res.add(resolves, "LB-check-loss-resolves", "check_loss", cl.site(), "check_loss", "Parameter losses are resolved before the range check", "check_loss no longer resolves Parameter values before checking", construct="check_loss")
 
     # ---- no cache: U / U_full / _build / _build_process store nothing on self and build on each read
@@ -227,29 +228,31 @@ def check(ctx) -> Result:
                 kind, lst, elem = "+=", n.target.id, src(n.value)
             if kind is None:
                 continue
-            guarded = False
-            p_ = n
-            while p_ is not None and p_ is not f_.node:
-                q_ = par_.get(p_)
-                if isinstance(q_, ast.If) and p_ in q_.body:
-                    for cmp_ in ast.walk(q_.test):
-                        if isinstance(cmp_, ast.Compare) and isinstance(cmp_.ops[0], ast.NotIn) and src(cmp_.comparators[0]) == lst and src(cmp_.left) == elem:
-                            guarded = True
-                p_ = q_
+            st_ = n
+            while st_ is not None and not isinstance(st_, ast.stmt):
+                st_ = par_.get(st_)
+            from ..guards import clause_implied as _ci
+            fa_ = facts_at(f_.node, st_) or []
+            guarded = _ci(frozenset({Lit("notin", elem, lst)}), fa_)
             grows.append((f_, n, kind, lst, elem, guarded and kind == "append"))
     if not grows:
         res.frozen(False, "H-collect-all-fields-once", "Circuit.get_all_params:dedup", gap.site(), gap.qualname, "", "collection idiom (list growth) not recognised", construct="dedup")
     for f_, n, kind, lst, elem, okg in grows:
         res.add(okg, "H-collect-all-fields-once", f"{f_.qualname}:{lst}.{kind}({elem[:30]})", f_.site(n), f_.qualname, "a parameter is appended only if it is not yet in the list",
                 f"`{src(n)[:70]}` grows the collected list without a `not in` test against it: a Parameter used in several places (or inside a group that follows another use) is listed more than once", construct=src(n)[:100])
-    fz = ctx.func(CIRC, "Circuit._freeze_params")
-    txt = src(fz.node)
-    rec = any(isinstance(n, ast.Assign) and isinstance(n.targets[0], ast.Attribute) and n.targets[0].attr == "circuit_spec" and "_freeze_params" in src(n.value) for n in walk_no_nested(fz.node))
-    grp = any(isinstance(n, ast.If) and "isinstance(spec, Group)" in src(n.test) for n in walk_no_nested(fz.node))
-    allf = any(isinstance(n, ast.For) and ".fields()" in src(n.iter) and ".values()" in src(n.iter) for n in walk_no_nested(fz.node))
-    sets = any(isinstance(n, ast.Call) and src(n.func) == "setattr" and len(n.args) == 3 and src(n.args[2]).endswith(".get()") for n in walk_no_nested(fz.node))
-    res.add(rec and grp, "H-freeze-through-groups", "Circuit._freeze_params", fz.site(), fz.qualname, "recurses into Group.circuit_spec", "parameters inside groups are not frozen", construct="Circuit._freeze_params")
-    res.add(allf and sets, "H-freeze-all-fields", "Circuit._freeze_params", fz.site(), fz.qualname, "every field holding a Parameter is replaced by its current value", "not every Parameter-valued field is replaced by its value", construct="Circuit._freeze_params")
+    fz0 = ctx.func(CIRC, "Circuit._freeze_params")
+    fz = with_helpers(ctx, fz0, exclude=("_freeze_params",), inline_locals=False)
+    fnodes = list(walk_no_nested(fz.node))
+    gbr = [n for n in fnodes if isinstance(n, ast.If) and any(isinstance(c, ast.Call) and src(c.func) == "isinstance" and len(c.args) == 2 and src(c.args[1]).split(".")[-1] == "Group" for c in ast.walk(n.test))]
+    flat = any(isinstance(c, ast.Call) and src(c.func) == "unpack_circuit_spec" for c in fnodes)
+    rec = any(isinstance(c, ast.Call) and src(c.func) in ("self._freeze_params", "Circuit._freeze_params") and "circuit_spec" in src(c) for g in gbr for b_ in g.body + g.orelse for c in ast.walk(b_))
+    if rec or flat:
+        res.ok("H-freeze-through-groups", "Circuit._freeze_params", fz.site(), fz.qualname, "recurses into Group.circuit_spec")
+    else:
+        res.bad("H-freeze-through-groups", "Circuit._freeze_params", fz.site(gbr[0]) if gbr else fz.site(), fz.qualname, "parameters inside groups are not frozen (no recursion into Group.circuit_spec on the Group branch, and the list is not flattened)", construct="Circuit._freeze_params")
+    allf = any(isinstance(n, ast.For) and (".fields()" in src(n.iter) or "fields(" in src(n.iter)) for n in fnodes)
+    sets = any(isinstance(n, ast.Call) and src(n.func) == "setattr" and len(n.args) == 3 and src(n.args[2]).endswith(".get()") for n in fnodes)
+    res.frozen(allf and sets, "H-freeze-all-fields", "Circuit._freeze_params", fz.site(), fz.qualname, "every field holding a Parameter is replaced by its current value", "field enumeration / setattr(<component>, <field>, <parameter>.get()) idiom not recognised", construct="Circuit._freeze_params")
     cp = ctx.func(CIRC, "Circuit.copy")
     deep = any(isinstance(n, ast.Call) and src(n.func) == "self._freeze_params" and ("deepcopy" in src(n) or any(isinstance(a, ast.Name) for a in n.args)) for n in walk_no_nested(cp.node))
     res.add(deep, "H-freeze-on-copy", "Circuit.copy", cp.site(), cp.qualname, "frozen copy substitutes values through _freeze_params", "copy(freeze_parameters=True) no longer substitutes the values", construct="Circuit.copy")
